@@ -81,7 +81,8 @@ class ThrRun(sbx.SbxRun):
                'stacks': (len(sb._current_patches), len(sb._current_stdout)), 'global_problems': problems,
                'runtime_feedback': fbs, 'alive': [t.index for t in self.sched.alive()],
                'events': self.sched.nevents, 'now': world.CLOCK.now - 1_000_000.0,
-               'raw_len': len(sb.raw_output)}
+               'raw_len': len(sb.raw_output),
+               'temporaries': sorted(k for k in list(sb.data) if isinstance(k, str) and k.startswith('_temporary_'))}
         self.boundaries.append(rec)
         return rec
 
